@@ -677,6 +677,17 @@ func (vm *VM) BuildBlock(ctx context.Context, pChainCtx *block.Context, parent *
 }
 
 func (vm *VM) VerifyBlock(ctx context.Context, parent *chain.OutputBlock, block *chain.ExecutionBlock) (*chain.OutputBlock, error) {
+	// Block execution checks the block timestamp against the parent timestamp recorded in state,
+	// which is zero for genesis although the genesis block itself carries a timestamp. Enforce the
+	// minimum gaps against the parent block as well (as the builder does), so that timestamps
+	// never decrease along the chain, starting from genesis.
+	r := vm.ruleFactory.GetRules(block.Tmstmp)
+	if minBlockGap := r.GetMinBlockGap(); block.Tmstmp < parent.Tmstmp+minBlockGap {
+		return nil, fmt.Errorf("%w: block timestamp %d < parent block timestamp (%d) + minBlockGap (%d)", chain.ErrTimestampTooEarly, block.Tmstmp, parent.Tmstmp, minBlockGap)
+	}
+	if minEmptyBlockGap := r.GetMinEmptyBlockGap(); len(block.StatelessBlock.Txs) == 0 && block.Tmstmp < parent.Tmstmp+minEmptyBlockGap {
+		return nil, fmt.Errorf("%w: block timestamp %d < parent block timestamp (%d) + minEmptyBlockGap (%d)", chain.ErrTimestampTooEarlyEmptyBlock, block.Tmstmp, parent.Tmstmp, minEmptyBlockGap)
+	}
 	return vm.chain.Execute(ctx, parent.View, block, vm.normalOp.Load())
 }
 
